@@ -35,6 +35,8 @@ type Run struct {
 	Evals      int
 	distinct   map[string]struct{}
 	Samples    []interface{}
+	keySamples []map[string]string
+	sampled    map[string]int
 	Dist       map[string]int
 	Streams    map[string]int
 	Violations int
@@ -82,6 +84,19 @@ func (r *Run) Case(stream string, nontrivialKey string) {
 	r.Streams[stream]++
 	if nontrivialKey != "" {
 		r.distinct[stream+"|"+nontrivialKey] = struct{}{}
+		// the first non-trivial cases of every stream are kept as samples (streams that hand in whole cases
+		// through Sample come first)
+		if r.sampled == nil {
+			r.sampled = map[string]int{}
+		}
+		if r.sampled[stream] < 1 && len(r.keySamples) < 12 {
+			r.sampled[stream]++
+			k := nontrivialKey
+			if len(k) > 600 {
+				k = k[:600] + "..."
+			}
+			r.keySamples = append(r.keySamples, map[string]string{"stream": stream, "case": k})
+		}
 	}
 }
 
@@ -190,7 +205,14 @@ func (r *Run) Finish(out string) int {
 			}
 		}
 	}
-	ev := HarnessEvidence{Evaluations: r.Evals, DistinctNontrivial: len(r.distinct), Rule: r.Rule, Samples: r.Samples,
+	samples := append([]interface{}{}, r.Samples...)
+	for _, ks := range r.keySamples {
+		if len(samples) >= 12 {
+			break
+		}
+		samples = append(samples, ks)
+	}
+	ev := HarnessEvidence{Evaluations: r.Evals, DistinctNontrivial: len(r.distinct), Rule: r.Rule, Samples: samples,
 		Distribution: r.Dist, Streams: r.Streams, ModelCalls: r.Mdl.Calls, Violations: r.Violations, KnownHits: r.KnownHits,
 		Notes: r.Notes, Exhaustive: r.Exhaustive, WallS: time.Since(r.Start).Seconds()}
 	b, _ := json.MarshalIndent(ev, "", " ")
